@@ -311,80 +311,163 @@ def sort_rows(line, sep=';'):
 
 
 def reduce_trace(L):
-    """run `reduce_group_representation(L)` and record, for every (recursive) call that reaches the selection step, the blocks in
-    discovery order (argument of `sorted`), the Boolean overlap rows handed to `np.nonzero`, and the returned blocks"""
+    """run `reduce_group_representation(L)` and record, for every (recursive) call that reaches the selection step, the candidate
+    blocks and the returned blocks.  The observation points are chosen so that the spelling of the selection step does not matter:
+    the public function itself (every recursive call goes through the module attribute), and the list of candidate blocks as it
+    enters the grouping by dimension — seen by a module-level `sorted` shadow *or* by a proxy of the module's `itertools`
+    (`groupby` after `sorted(...)` or after `z1.sort(...)`: the order inside one dimension is the discovery order either way).
+    The Boolean rows handed to `np.nonzero` / `np.flatnonzero` / `np.where` / `np.argwhere` are kept as a cross-check only."""
+    import itertools as _it
     import numqi.group._internal as GI
     frames, stack = [], []
-    orig_red, orig_nz = GI.reduce_group_representation, np.nonzero
-    def my_sorted(iterable, key=None, reverse=False):
+    orig_red = GI.reduce_group_representation
+    is_blocks = lambda items: len(items) > 0 and all(isinstance(b, np.ndarray) and b.ndim == 3 and b.shape[1] == b.shape[2] for b in items)
+
+    def my_sorted(iterable, *a, **k):
         items = list(iterable)
-        if stack and key is not None and stack[-1]['found'] is None:
-            stack[-1]['found'] = items
-        return sorted(items, key=key, reverse=reverse)
-    def nz(x, *a, **k):
-        if stack and isinstance(x, np.ndarray) and x.dtype == np.bool_ and x.ndim == 1:
-            stack[-1]['rows'].append(x.copy())
-        return orig_nz(x, *a, **k)
+        if stack and stack[-1]['found'] is None and is_blocks(items):
+            stack[-1]['found'] = items; stack[-1]['how'] = 'sorted'
+        return sorted(items, *a, **k)
+
+    class ItProxy:
+        def __getattr__(self, nm):
+            return getattr(_it, nm)
+        def groupby(self, iterable, key=None):
+            items = list(iterable)
+            if stack and stack[-1]['found'] is None and is_blocks(items):
+                stack[-1]['found'] = items; stack[-1]['how'] = 'groupby'
+            return _it.groupby(items, key=key)
+
+    saved_np = {}
+    def wrap_np(nm):
+        orig = getattr(np, nm)
+        def w(x, *a, **k):
+            if stack and isinstance(x, np.ndarray) and x.dtype == np.bool_ and x.ndim == 1 and not a and not k:
+                stack[-1]['rows'].append(x.copy())
+            return orig(x, *a, **k)
+        saved_np[nm] = orig
+        setattr(np, nm, w)
+
     def red(np0, *a, **k):
-        fr = dict(rows=[], found=None); stack.append(fr)
+        fr = dict(rows=[], found=None, how=None, N=int(np.asarray(np0).shape[0])); stack.append(fr)
         try:
             out = orig_red(np0, *a, **k)
         finally:
             stack.pop()
         fr['out'] = out
-        if fr['found'] is not None:
-            frames.append(fr)
+        frames.append(fr)
         return out
-    GI.reduce_group_representation = red; GI.sorted = my_sorted; np.nonzero = nz
+    had_sorted = 'sorted' in vars(GI)
+    old_sorted = vars(GI).get('sorted')
+    old_it = vars(GI).get('itertools')
+    GI.reduce_group_representation = red; GI.sorted = my_sorted
+    if old_it is not None:
+        GI.itertools = ItProxy()
+    for nm in ('nonzero', 'flatnonzero', 'where', 'argwhere'):
+        wrap_np(nm)
     try:
         out = red(L)
     finally:
-        GI.reduce_group_representation = orig_red; np.nonzero = orig_nz
-        del GI.sorted
+        GI.reduce_group_representation = orig_red
+        for nm, orig in saved_np.items():
+            setattr(np, nm, orig)
+        if had_sorted:
+            GI.sorted = old_sorted
+        else:
+            del GI.sorted
+        if old_it is not None:
+            GI.itertools = old_it
     return out, frames
+
+
+def overlap_matrix(blocks, N):
+    """Boolean overlap relation of candidate blocks computed from the arrays themselves (not from the implementation's Boolean matrix):
+    |<chi_i, chi_j>| / N is 1 for equivalent irreducible blocks and 0 otherwise; returns (E, margin) with margin the distance of the
+    least clear entry from {0, 1}"""
+    chi = np.stack([np.trace(b, axis1=1, axis2=2) for b in blocks])
+    ov = np.abs(chi @ chi.conj().T) / N
+    margin = float(np.minimum(np.abs(ov), np.abs(ov - 1)).max())
+    return (np.abs(ov - 1) < 1e-6), margin
 
 
 def dedup_tie(ctx):
     """the selection step of `reduce_group_representation` (group by dimension, drop equivalent copies by character overlap) against
-    `FinGroup.dedupAll`, on the inputs captured from the real call"""
+    `FinGroup.dedupAll`, on the candidate blocks captured from the real call"""
     import numqi
     G = numqi.group
     ops, impl = [], []
     cases = [('sym', 3), ('dih', 3), ('dih', 4), ('quat', 0), ('cyc', 4), ('klein', 0), ('mul', 15), ('dih', 5), ('cyc', 6)]
     if not ctx.quick():
         cases += [('alt', 4), ('dih', 6), ('sym', 4), ('dih', 7), ('mul', 24), ('cyc', 12)]
+    uncaptured, hyp_bad, crosscheck_diff, worst_margin, how_seen = [], [], 0, 0.0, set()
     for kind, n in cases:
         T = np.asarray(build_table(kind, n))
         L = np.asarray(G.cayley_table_to_left_regular_form(T))
         out, frames = reduce_trace(L)
+        nf = 0
         for fr in frames:
             found = fr['found']
+            if found is None:
+                continue        # a call that returned before the selection step (irreducible input), or whose candidates were not observable
+            how_seen.add(fr['how'])
             dims = [int(b.shape[1]) for b in found]
             rows = list(fr['rows'])
-            mats, groups = [], {}
+            mats, groups, ok_frame = [], {}, True
             for d in sorted(set(dims)):
                 members = [b for b in found if b.shape[1] == d]
                 groups[d] = members
                 if len(members) > 1:
+                    E, margin = overlap_matrix(members, fr['N'])
+                    worst_margin = max(worst_margin, margin)
+                    if margin > 1e-6:
+                        ok_frame = False; break        # overlaps not cleanly 0/1: the candidates are not irreducible blocks; leave it to the probe
                     m = len(members)
-                    blk, rows = rows[:m], rows[m:]
-                    if len(blk) != m or any(len(r) != m for r in blk):
-                        raise RuntimeError(f'{kind}{n}: overlap rows of the dimension-{d} group not captured as a {m}x{m} Boolean matrix')
-                    mats.append(f'{d}=' + '/'.join(''.join('1' if x else '0' for x in r) for r in blk))
-            if rows:
-                raise RuntimeError(f'{kind}{n}: {len(rows)} overlap rows left over')
+                    # hypotheses of `dedupGroup_transversal`: reflexive, symmetric, transitive
+                    Ei = E.astype(int)
+                    if not (E.diagonal().all() and np.array_equal(E, E.T) and np.array_equal((Ei @ Ei) > 0, E)):
+                        hyp_bad.append(f'{kind}{n}: dimension-{d} overlap relation {E.astype(int).tolist()}')
+                    # cross-check with the Boolean rows the implementation handed to np.nonzero & co (when it did)
+                    if len(rows) >= m and all(len(r) == m for r in rows[:m]):
+                        blk, rows = rows[:m], rows[m:]
+                        if not np.array_equal(np.array(blk), E):
+                            crosscheck_diff += 1
+                    mats.append(f'{d}=' + '/'.join(''.join('1' if x else '0' for x in r) for r in E))
+            if not ok_frame:
+                continue
             sel = []
             for b in fr['out']:
                 d = int(b.shape[1])
-                idx = [i for i, m in enumerate(groups.get(d, [])) if m is b]
-                sel.append((d, idx[0] if len(idx) == 1 else -1))
+                mem = groups.get(d, [])
+                idx = [i for i, mm in enumerate(mem) if mm is b] or [i for i, mm in enumerate(mem) if mm.shape == b.shape and np.array_equal(mm, b)]
+                sel.append((d, idx[0] if idx else -1))
             ops.append(f'C14 dedup {",".join(map(str, dims))} {"+".join(mats) or "-"}')
             impl.append(';'.join(f'{d}:{i}' for d, i in sorted(sel)))
             ctx.count('dedup-' + kind)
-    model = common.run_model(ops)
-    model = [';'.join(sorted(m.split(';'), key=lambda t: tuple(int(x) for x in t.split(':')))) if m and ':' in m else m for m in model]
-    common.compare(ctx, ops, impl, model, key=lambda op: 'dedup')
+            nf += 1
+        if nf == 0:
+            uncaptured.append(f'{kind}{n}')
+            # public path (always available): the returned blocks must be pairwise inequivalent and complete for the regular representation
+            N = len(T)
+            chi = np.stack([np.trace(b, axis1=1, axis2=2) for b in out])
+            gram = np.abs(chi @ chi.conj().T) / N
+            dims = [int(b.shape[1]) for b in out]
+            if np.abs(gram - np.eye(len(out))).max() > 1e-6 or sum(d * d for d in dims) != N:
+                ctx.fail('irrep:selection', f'{kind}{n}: the blocks returned for the left regular representation are not one per class (character Gram matrix deviates by '
+                         f'{np.abs(gram - np.eye(len(out))).max():.2e}, sum d^2 = {sum(d * d for d in dims)}, |G| = {N})', dict(constructor=kind, n=n, dims=dims))
+            else:
+                ctx.probe_ok(('selection-public', kind, n))
+    if ops:
+        model = common.run_model(ops)
+        model = [';'.join(sorted(m.split(';'), key=lambda t: tuple(int(x) for x in t.split(':')))) if m and ':' in m else m for m in model]
+        common.compare(ctx, ops, impl, model, key=lambda op: 'dedup')
+    for h in hyp_bad:
+        ctx.disagree('C14 dedup hypotheses', 'overlap relation reflexive, symmetric, transitive (hypotheses of dedupGroup_transversal)', h)
     ctx.extra['dedup_frames'] = len(ops)
+    ctx.extra['dedup_capture'] = dict(observed_through=sorted(x for x in how_seen if x), cases_without_frames=uncaptured, overlap_margin_from_0_1=worst_margin,
+                                      hypotheses_violated=len(hyp_bad), implementation_boolean_rows_differ=crosscheck_diff)
+    if uncaptured:
+        ctx.note(f'dedup tie: the candidate blocks of the selection step were not observable for {uncaptured} (neither `sorted` nor `itertools.groupby` sees them); '
+                 'covered on the public path only (returned blocks pairwise inequivalent, sum d^2 = |G|)')
 
 
 def correspondence(ctx):
